@@ -177,6 +177,7 @@ def run(ctx):
     ctx.guarded("C02.ctrlcheck", lambda c: cv.ctrlcheck_rule(c, "C02", "cbor"))
     ctx.guarded("C02.ctrltarget", lambda c: cv.ctrltarget_rule(c, "C02", "cbor"))
     ctx.guarded("C02.revisit", lambda c: cv.revisit_rule(c, "C02", "cbor"))
+    ctx.guarded("C02.rangenamed", lambda c: cv.rangenamed_rule(c, "C02", "cbor"))
     import c10
     ctx.guarded("C02.ledger", lambda c: c10.r_ledger(c, rid="C02.ledger"))
     ctx.guarded("C02.width", width_rule)
